@@ -10,7 +10,7 @@ predicates::
 
     ["cmp", "eq|ne|lt|le|gt|ge", e1, e2] ["plit", bool] ["not", p]
     ["and"|"or", [p...], "ctor"|"factory"]
-    ["inrange", e, [start, stop, step]] ["inseq", e, [e...], "list"|"tuple"]
+    ["inrange", e, [start, stop, step], "factory"|"ctor"] ["inseq", e, [e...], "list"|"tuple"]
     ["rcmp", op, e1, e2, [engine kinds]]               # engine-restricted predicate
 
 Direct evaluation here shares no code with either engine of the library.
@@ -168,6 +168,12 @@ def plib(p):
     if k == "plit":
         return Predicate.literal(p[1])
     if k == "inrange":
+        how = p[3] if len(p) > 3 else "factory"
+        if how == "ctor":
+            # the public dataclass constructor (documented as what the factory returns)
+            from lsst.daf.relation import ColumnRangeLiteral
+
+            return ColumnRangeLiteral(range(*p[2])).contains(elib(p[1]))
         return ColumnContainer.range_literal(range(*p[2])).contains(elib(p[1]))
     if k == "inseq":
         how = p[3] if len(p) > 3 else "tuple"
@@ -208,7 +214,7 @@ def gen_p(rng, cols, depth=2, wild_ranges=False, leaf_lits=True):
         if r2 < 0.72 and leaf_lits:
             return ["plit", rng.random() < 0.5]
         if r2 < 0.88:
-            return ["inrange", gen_e(rng, cols, 1), gen_range(rng, wild_ranges)]
+            return ["inrange", gen_e(rng, cols, 1), gen_range(rng, wild_ranges), rng.choice(["factory", "factory", "ctor"])]
         if rng.random() < 0.35:
             items = [["lit", rng.randint(-3, 3)] for _ in range(rng.randint(0, 3))]  # all-literal sequence
         else:
